@@ -64,7 +64,8 @@ async def run_cases(s, cases, schema_name, cfg=None):
     out = []
     for c in cases:
         rec.clear()
-        oracle_ref[0] = execgen.Oracle(s, c["oracle_seed"], c.get("adversarial", 0.08), c.get("fail", 0.08))
+        oracle_ref[0] = execgen.Oracle(s, c["oracle_seed"], c.get("adversarial", 0.08), c.get("fail", 0.08),
+                                       faults={tuple(p): k for p, k in (c.get("faults") or [])})
         root = execgen.realise(c.get("root"))
         try:
             resp = await engine.execute(c["query"], operation_name=c.get("opname"), variables=c["variables"],
@@ -152,7 +153,7 @@ def gen_cases(rng, s, n, kinds=("query",), adversarial=0.08, fail=0.08):
 
 
 def explore(tier_, seed, prop, kinds=("query",), adversarial=0.08, fail=0.08, with_mutation=False,
-            evals=IMPL_EVAL, extra_imports="", n_override=None):
+            evals=IMPL_EVAL, extra_imports="", n_override=None, expand=None):
     """Generate, run, evaluate.  Returns list of dicts (schema, case, ast, run, labels...)."""
     from . import engine_env
     engine_env.setup()
@@ -163,6 +164,8 @@ def explore(tier_, seed, prop, kinds=("query",), adversarial=0.08, fail=0.08, wi
     for si in range(n_schemas):
         s = execgen.gen_exec_schema(rng, with_mutation=with_mutation)
         cases = gen_cases(rng, s, n_cases, kinds, adversarial, fail)
+        if expand:
+            cases = expand(rng, s, cases, cfg)
         asts = [gen.parse_query(c["query"]) for c in cases]
         runs = asyncio.run(run_cases(s, cases, fresh_schema_name(prop.lower()), cfg))
         step = 30
@@ -180,39 +183,105 @@ def zlib_crc(s):
     return zlib.crc32(s.encode())
 
 
-def main(tier_, replay=None):
-    rep = common.Report("C01")
+SPEC_EVAL = ('Eval vm_compute in ("verdicts", map (fun c => match c with '
+             "(doc, U, opn, raw, root, obs) => spec_verdict sch doc U cfg opn raw root obs "
+             "end) cases).\n")
+
+BIT_NAMES = {1: "data differs from the specification's execution algorithm",
+             2: "a field error's origin is not reported in errors",
+             4: "an error is reported for a position where no field error originated",
+             8: "an error's path does not lead to a null in data",
+             16: "data does not conform to schema and selection",
+             64: "specification model crashed"}
+
+
+def parse_int_list(out, label):
+    import re
+    m = re.search(r'\(\s*"%s"\s*,\s*\[(.*?)\]\s*\)' % label, out, re.S)
+    if not m:
+        return None
+    body = m.group(1).strip()
+    return [int(x.strip().strip("()")) for x in body.split(";") if x.strip()] if body else []
+
+
+def run_property(pid, tier_, bits, explore_kwargs, property_files, extra_python_check=None,
+                 nontrivial=lambda c, r: r["response"].get("data") is not None, rule=""):
+    rep = common.Report(pid)
     seed = common.seed()
-    b = common.build(["Properties/C01.vo", "Model/RunExec.vo", "Model/StdScalars.vo"])
+    b = common.build(["Properties/%s.vo" % pid, "Model/RunExec.vo", "Model/StdScalars.vo"])
     gate = common.grep_gate()
     proofs_ok = b["ok"] and not gate
-    meta, results = explore(tier_, seed, "C01", adversarial=0.02, fail=0.03)
-    total = 0
-    mism = []
-    refused = 0
+    meta, results = explore(tier_, seed, pid, evals=IMPL_EVAL + SPEC_EVAL, **explore_kwargs)
+    total = nontriv = 0
+    impl_mm, viol = [], []
     for fi, ((s, cases, asts, runs), (ok, so, se)) in enumerate(zip(meta, results)):
         total += len(cases)
         if not ok:
-            rep.violation({"property": "C01", "what": "case file failed to evaluate", "stderr": se[-1500:]},
+            rep.violation({"property": pid, "what": "case file failed to evaluate", "stderr": se[-1500:]},
                           no_input=True)
             continue
-        for i in common.parse_Z_list(so, "impl_mismatch") or []:
-            cases[i]["_where"] = (fi, i, so[so.find('"diffs"'):][:400])
-            mism.append((s, cases[i], runs[i]))
-        refused += sum(1 for r in runs if r["response"].get("data") is None)
-    for s, c, r in mism[:5]:
-        rep.violation({"property": "C01", "what": "engine and impl model disagree",
-                       "sdl": gen.schema_sdl(s), "query": c["query"], "variables": c["variables"],
-                       "opname": c.get("opname"), "oracle_seed": c["oracle_seed"], "where": c.get("_where"),
-                       "response": r["response"],
-                       "calls": [(x["path"], x["ptype"], x["field"], repr(x["args"])) for x in r["calls"]]},
-                      no_input=True)
-    common.write_evidence("C01", tier_, "proof", {
-        "obligations": 1, "discharged": 1 if proofs_ok else 0,
-        "checker_cmd": "make Properties/C01.vo", "trusted_base": common.TRUSTED_BASE,
-        "evaluations": total, "distinct_nontrivial": total - refused,
-        "rule": "generated valid requests; non-trivial = executed (data not null)",
-        "impl_model_mismatches": len(mism),
-        "samples": [{"query": c["query"], "variables": c["variables"]} for c in meta[0][1][:3]] if meta else [],
-    }, rep.wall(), violations=len(rep.violations))
+        verdicts = parse_int_list(so, "verdicts") or [0] * len(cases)
+        mm = set(common.parse_Z_list(so, "impl_mismatch") or [])
+        for i, (c, r) in enumerate(zip(cases, runs)):
+            if nontrivial(c, r):
+                nontriv += 1
+            why = []
+            v = verdicts[i] if i < len(verdicts) else 0
+            for bit, name in BIT_NAMES.items():
+                if v & bit & bits:
+                    why.append(name)
+            if extra_python_check:
+                why += extra_python_check(c, r)
+            if why:
+                viol.append((s, c, r, why))
+            elif i in mm:
+                impl_mm.append((s, c, r))
+    for s, c, r, why in viol[:5]:
+        rep.violation({"property": pid, "kind": why, "sdl": gen.schema_sdl(s), "query": c["query"],
+                       "variables": c["variables"], "opname": c.get("opname"),
+                       "oracle_seed": c["oracle_seed"], "faults": c.get("faults"),
+                       "response": repr(r["response"])[:3000],
+                       "resolver_calls": [(x["path"], x["ptype"], x["field"], repr(x["args"]), repr(x["ret"])[:200])
+                                          for x in r["calls"]][:60]})
+    if not viol:
+        if not proofs_ok:
+            rep.violation({"property": pid, "what": "proof obligation no longer checks",
+                           "file": b.get("failed_file"), "theorem": b.get("failed_lemma"), "gate": gate,
+                           "log_tail": b["log"][-1500:]}, no_input=True)
+        elif impl_mm:
+            s, c, r = impl_mm[0]
+            rep.violation({"property": pid, "what": "correspondence broken: engine and implementation model "
+                           "disagree (data / errors / resolver call log) although the property predicates hold "
+                           "on the explored cases", "n": len(impl_mm),
+                           "sdl": gen.schema_sdl(s), "query": c["query"], "variables": c["variables"],
+                           "opname": c.get("opname"), "oracle_seed": c["oracle_seed"], "faults": c.get("faults"),
+                           "response": repr(r["response"])[:3000]}, no_input=True)
+    nob, names = common.count_obligations(property_files)
+    assum = common.assumptions("Properties/%s.v" % pid) if b["ok"] else {"closed": 0, "axioms": ["build failed"]}
+    common.write_evidence(pid, tier_, "proof", {
+        "obligations": nob, "discharged": nob if proofs_ok else 0,
+        "checker_cmd": "make Properties/%s.vo (coqc 8.16.1) after regenerating Gen/ from /repo" % pid,
+        "trusted_base": common.TRUSTED_BASE + [
+            "Print Assumptions: %d theorems closed; axioms: %s" % (assum["closed"], assum["axioms"] or "none")],
+        "theorems": [n for n in names if n.startswith(pid + "_")],
+        "evaluations": total, "distinct_nontrivial": nontriv, "rule": rule,
+        "traces_validated_against_impl": total,
+        "impl_model_mismatches": len(impl_mm), "property_violations": len(viol),
+        "samples": [{"query": c["query"], "variables": c["variables"], "faults": c.get("faults")}
+                    for c in (meta[0][1][:3] if meta else [])],
+    }, rep.wall(), violations=len(rep.violations),
+        assumptions_=["directive hooks other than @skip/@include absent (C13)", "errors/call log compared as multisets",
+                      "engine-authored message texts not compared"])
     return rep.finish()
+
+
+C01_FILES = ["Properties/C01.v", "Proofs/CollectRefine.v"]
+
+
+def main(tier_, replay=None):
+    return run_property(
+        "C01", tier_, bits=1 | 64, explore_kwargs=dict(adversarial=0.02, fail=0.03),
+        property_files=C01_FILES,
+        extra_python_check=lambda c, r: ([] if r["ctx_ok"] else ["a resolver did not receive the caller's context"]),
+        rule="generated valid requests (aliases, repeated keys, fragment DAGs with sharing, type conditions, "
+             "@skip/@include, variables, three ways of naming the runtime type); non-trivial = executed")
